@@ -200,7 +200,13 @@ def gen_case(seed, i, max_depth, code_dirs, code_exts):
         cfg = pats
     elif r.random() < 0.3:
         ti = [["C", " nothing"]]
-    return finish_case({"i": i, "kids": kids, "ti": ti, "cfg": cfg, "cfg_kind": cfg_kind,
+    rerun = None
+    if r.random() < 0.12:
+        # second state of the ignore sources for the SAME tree and paths, linted later in the same process
+        p2 = [gen_pattern(r, files, dirs) for _ in range(r.choice([0, 0, 1, 2]))]
+        w2 = r.choice(["ti", "cfg", "none"]) if p2 else r.choice(["none", "none", "emptyti"])
+        rerun = {"ti": [["P", 0, 0, p] for p in p2] if w2 == "ti" else ([["C", " cleared"]] if w2 == "emptyti" else None), "cfg": p2 if w2 == "cfg" else None}
+    return finish_case({"i": i, "kids": kids, "ti": ti, "cfg": cfg, "cfg_kind": cfg_kind, "rerun": rerun,
                         "place": r.choice(["plain"] * 17 + ["build", "x.egg-info", "venv"]),
                         "via": "cli" if r.random() < 0.04 else "api", "spelling": "abs"}, r)
 
@@ -221,6 +227,13 @@ def finish_case(c, r=None):
             for d in r.sample(clean, min(len(clean), 1 if cli else 2)):
                 obs.append(["dir", r.random() < 0.6, d])
         obs.append(["files", list(files_of(kids))])
+        if r is not None and r.random() < (0.5 if cli else 0.22):
+            # the parallel directory entry point (lint_directory_parallel / --parallel): same expected set; prefer a flat run
+            # on a directory that has sub-directories with files, so that a lost `recursive` argument shows
+            deep = [d for d in [[]] + clean if any(k[0] == "D" and list(files_of(k[2])) for k in subtree(kids, d))]
+            tgt = r.choice(deep) if deep and r.random() < 0.8 else (r.choice(clean) if clean and r.random() < 0.5 else [])
+            if len(list(files_of(subtree(kids, tgt)))) <= 30 or cli:
+                obs.append(["dir", r.random() < 0.3, tgt, "par"])
         c["obs"] = obs
     if c["via"] == "cli" and r is not None and c["place"] == "plain" and c["cfg_kind"] == "yaml" and r.random() < 0.5 \
             and not any(k[0] == "F" and k[1] == "src.py" for k in kids) and not any(d[-1] == ".git" for d in dirs_of(kids)):
@@ -242,6 +255,11 @@ def write_project(case, base: Path) -> Path:
                 (d / ch[1]).mkdir()
                 put(ch[2], d / ch[1])
     put(case["kids"], root)
+    write_sources(case, root)
+    return root
+
+
+def write_sources(case, root: Path):
     conf = {"file-placement": {"global_deny": [{"pattern": ".*", "reason": "planted"}]}}
     if case["cfg"] is not None:
         conf["ignore"] = [render_pat(p) for p in case["cfg"]]
@@ -255,7 +273,8 @@ def write_project(case, base: Path) -> Path:
         (root / ".thailint.json").write_text(json.dumps(conf, indent=1))
     if case["ti"] is not None:
         (root / ".thailintignore").write_text("\n".join(render_line(l) for l in case["ti"]) + "\n")
-    return root
+    elif (root / ".thailintignore").exists():
+        (root / ".thailintignore").unlink()
 
 
 def _paths(vs, root: Path):
@@ -271,8 +290,32 @@ def _paths(vs, root: Path):
     return sorted(out)
 
 
+def second_state(case):
+    """the same tree with the second state of the ignore sources; observations: recursive root run + every file named"""
+    c2 = {k: v for k, v in case.items() if k not in ("obs", "rerun")}
+    c2.update({"ti": case["rerun"]["ti"], "cfg": case["rerun"]["cfg"], "rerun": None, "i": f"{case['i']}:rerun", "kids": json.loads(json.dumps(case["kids"]))})
+    c2 = finish_case(c2)
+    c2["origin"] = {k: v for k, v in case.items()}     # a replay has to go through the first state again
+    c2["obs"] = [o for o in c2["obs"] if o[0] == "files" or (o[1] and not o[2])]
+    return c2
+
+
+def _api_obs(root, o):
+    orch = make_orchestrator(root, None)
+    tgt = root / "/".join(o[2]) if o[0] == "dir" and o[2] else root
+    if o[0] == "dir" and len(o) > 3:
+        vs = orch.lint_directory_parallel(tgt, recursive=o[1], max_workers=2)
+    elif o[0] == "dir":
+        vs = orch.lint_directory(tgt, recursive=o[1])
+    else:
+        vs = orch.lint_files([root / "/".join(p) for p in o[1]])
+    return _paths([str(v.file_path) for v in vs], root)
+
+
 def run_impl(case):
     """per observation: the sorted set of project-relative paths that got at least one violation"""
+    import multiprocessing as mp
+    mp.current_process()._config["daemon"] = False   # the pool worker must be allowed to start the linter's own worker processes
     with scratch_dir("tv-c14-") as base:
         root = write_project(case, base)
         res, fails = [], []
@@ -280,7 +323,7 @@ def run_impl(case):
             for o in case["obs"]:
                 if o[0] == "dir":
                     tgt = (root / "/".join(o[2])) if case["spelling"] == "abs" else Path("/".join(o[2]) or ".")
-                    args = ["file-placement", "--format", "json"] + ([] if o[1] else ["--no-recursive"]) + [str(tgt)]
+                    args = ["file-placement", "--format", "json"] + ([] if o[1] else ["--no-recursive"]) + (["--parallel"] if len(o) > 3 else []) + [str(tgt)]
                 else:
                     args = ["file-placement", "--format", "json"] + [str(root / "/".join(p)) if case["spelling"] == "abs" else "/".join(p) for p in o[1]]
                 if case["spelling"] == "abs":
@@ -294,15 +337,19 @@ def run_impl(case):
                     res.append(_paths([v["file_path"] for v in vs], root))
             return {"runs": res, "failures": []}
         for o in case["obs"]:
-            orch = make_orchestrator(root, None)
-            if o[0] == "dir":
-                vs = orch.lint_directory(root / "/".join(o[2]) if o[2] else root, recursive=o[1])
-            else:
-                vs = orch.lint_files([root / "/".join(p) for p in o[1]])
-            res.append(_paths([str(v.file_path) for v in vs], root))
+            res.append(_api_obs(root, o))
             fails += drain_failures()
-        return {"runs": res, "failures": fails}
-
+        out = {"runs": res, "failures": fails}
+        if case.get("rerun"):
+            # same process, same paths, new state of .thailintignore / the config's ignore list; the module-level parser
+            # cache is reset through the public helper, as a long-lived caller would do after editing the files
+            from src.linter_config.ignore import clear_ignore_parser_cache
+            c2 = second_state(case)
+            write_sources(c2, root)
+            clear_ignore_parser_cache()
+            runs2 = [_api_obs(root, o) for o in c2["obs"]]
+            out["rerun"] = {"case": c2, "impl": {"runs": runs2, "failures": drain_failures()}}
+        return out
 
 
 # ------------------------------------------------------------------ Python mirrors of Model/CollectSpec.v and Model/Collect.v
@@ -446,7 +493,7 @@ def coq_case(case, impl) -> str:
     for o, r in zip(case["obs"], impl["runs"]):
         r = r if isinstance(r, list) else ["<error>"]
         if o[0] == "dir":
-            obs.append(f"(ODir {coq.coq_bool(o[1])} {cl(o[2])} {cl(r)})")
+            obs.append(f"({'ODirPar' if len(o) > 3 else 'ODir'} {coq.coq_bool(o[1])} {cl(o[2])} {cl(r)})")
         else:
             obs.append(f"(OFiles {coq.coq_list([cl(p) for p in o[1]])} {cl(r)})")
     # the components in front of the project-relative path: only their names matter to the model
@@ -575,6 +622,7 @@ def corpus_cases():
         c.setdefault("cfg_kind", "yaml")
         c.setdefault("ti", None)
         c.setdefault("cfg", None)
+        c.setdefault("rerun", None)
         c["i"] = "corpus:" + p.stem
         out.append(finish_case(c))
     return out
@@ -586,7 +634,9 @@ def run(tier: str, seed: int, replay: str | None = None) -> int:
     chk.rule = ("seeded random project trees (depth <= 4 quick / 6 thorough; ordinary, hidden, always-excluded, *.egg-info and near-miss directory names at any depth; "
                 "ordinary, compiled-artefact, odd-suffix and directory-table file names) with a planted violation in every file (file-placement deny-all, print call), "
                 "x 0-6 ignore patterns of the documented forms aimed at names of the tree, placed in .thailintignore, the config's ignore list (YAML or JSON) or both, "
-                "x observations: recursive and non-recursive run on the root and on sub-directories, and one run naming every file explicitly "
+                "x observations: recursive and non-recursive run on the root and on sub-directories, one run naming every file explicitly, for a fraction a run through "
+                "lint_directory_parallel(max_workers=2) / --parallel (mostly non-recursive on a directory with populated sub-directories), and for a fraction a second state of "
+                "the ignore sources linted afterwards in the same process on the same paths (expected: the specification on the current state) "
                 "(in-process Orchestrator, a fraction through the CLI, absolute and cwd-relative spelling, a fraction of projects under an excluded-named parent); "
                 "a case is non-trivial when the recursive root run reports some but not all files of the tree; distinct = distinct (tree, sources, placement)")
     chk.trusted_base += [
@@ -601,7 +651,7 @@ def run(tier: str, seed: int, replay: str | None = None) -> int:
     t_build = time.time() - t0
     # budget: only the hand-modelled sources of THIS property count (the shared fingerprint snapshot covers every property)
     mine = ("src/orchestrator/core.py::_collect_files_fast", "src/linter_config/ignore.py::is_ignored,_load_repo_ignores,_parse_thailintignore_file",
-            "src/linter_config/pattern_utils.py::", "src/cli/utils.py::separate_files_and_dirs")
+            "src/linter_config/pattern_utils.py::", "src/cli/utils.py::separate_files_and_dirs", "src/orchestrator/core.py::lint_directory_parallel")
     chk.fingerprint_changed = [k for k in chk.fingerprint_changed if k.startswith(mine)]
     scale = chk.budget_scale()
     per_batch = 180 if tier == "quick" else 1800
@@ -612,11 +662,16 @@ def run(tier: str, seed: int, replay: str | None = None) -> int:
     for b in range(scale):
         if replay:
             cases = [json.loads(Path(replay).read_text())["violation"]["case"]]
+            cases = [c.get("origin") or c for c in cases]
         else:
             cases = (corpus_cases() if b == 0 else []) + [gen_case(seed, i, max_depth, code_dirs, code_exts) for i in range(b * per_batch, (b + 1) * per_batch)]
         t0 = time.time()
         impls = pool_map(run_impl, cases, procs=8)
         state["t_impl"] += time.time() - t0
+        for im in list(impls):          # the second-state runs are judged as cases of their own
+            if im.get("rerun"):
+                cases.append(im["rerun"]["case"])
+                impls.append(im["rerun"]["impl"])
         t0 = time.time()
         with scratch_dir("tv-c14-coq-") as wd:
             verdicts, errs = judge(cases, impls, wd / "cases")
@@ -669,7 +724,10 @@ def decide(chk, cases, impls, verdicts, state):
         if mirror_only:     # the model could not be evaluated in Coq: fall back to the hand-written mirrors (a broken obligation is already recorded)
             ver = [py_verdict(case, o, r) if isinstance(r, list) else [0] * (3 + len(FLAGS) + 2) for o, r in zip(case["obs"], impl["runs"])]
         for o, r, bits in zip(case["obs"], impl["runs"], ver):
-            chk.dist("obs:" + (o[0] + ("" if o[0] == "files" else ":recursive" if o[1] else ":flat") + ("" if o[0] == "files" or not o[2] else ":subdir")))
+            chk.dist("obs:" + (o[0] + ("" if o[0] == "files" else ":recursive" if o[1] else ":flat") + ("" if o[0] == "files" or not o[2] else ":subdir")
+                               + (":parallel" if o[0] == "dir" and len(o) > 3 else "")))
+            if str(case["i"]).endswith(":rerun"):
+                chk.dist("obs:second-state-same-process")
             if isinstance(r, dict):
                 chk.violation({"reason": "CLI run failed", "detail": r, "observation": o, "case": case})
                 continue
